@@ -52,9 +52,22 @@ def run(ctx):
         if len(iv) == 1:
             acc = T("acc", (iv[0], lp.depth), tm.INT)
             digit = tm.mod(acc, 58)
+            # the value is a non-negative integer: `while n`, `while n > 0`, `while n != 0` are one condition
+            okcond = any(tm.veq(lp.cond, c) for c in (tm.truth(acc), tm.cmp("gt", acc, 0), tm.cmp("ne", acc, 0), tm.cmp("ge", acc, 1)))
+            okdiv = tm.veq(lp.body.get(iv[0]), tm.binop("floordiv", acc, 58))
+            # idiom 1: bytes accumulator, each digit's character PREPENDED
             ev_ = [v for v, init in lp.init.items() if init == b""]
-            okl = tm.veq(lp.cond, tm.truth(acc)) and tm.veq(lp.body.get(iv[0]), tm.binop("floordiv", acc, 58)) and len(ev_) == 1 and \
-                tm.veq(lp.body.get(ev_[0]), tm.cat([tm.slc(ALPHABET, digit, tm.add([1, digit])), T("acc", (ev_[0], lp.depth), tm.BYTES)]))
+            pre = len(ev_) == 1 and tm.veq(lp.body.get(ev_[0]), tm.cat([tm.slc(ALPHABET, digit, tm.add([1, digit])), T("acc", (ev_[0], lp.depth), tm.BYTES)]))
+            tail = rets[0].value.args[1] if ok else None
+            pre = pre and isinstance(tail, T) and tail.op == "loopout" and tail.args[0] == ev_[0]
+            # idiom 2: list accumulator, each digit's character code APPENDED, then reversed and converted with bytes()
+            lv = [v for v, init in lp.init.items() if init == []]
+            app = len(lv) == 1 and tm.veq(lp.body.get(lv[0]), tm.lcat([T("acc", (lv[0], lp.depth), tm.LIST), [tm.idx(ALPHABET, digit)]]))
+            if app:
+                app = isinstance(tail, T) and tail.op == "tobytes" and isinstance(rules.unfz(tail.args[0]), T) and rules.unfz(tail.args[0]).op == "rev" and \
+                    isinstance(rules.unfz(rules.unfz(tail.args[0]).args[0]), T) and rules.unfz(rules.unfz(tail.args[0]).args[0]).op == "loopout" and \
+                    rules.unfz(rules.unfz(tail.args[0]).args[0]).args[0] == lv[0]
+            okl = okcond and okdiv and (pre or app)
     R.check("C07.1", "TERM-EQ", fe, "encode: digits = repeated divmod by 58, most significant first, through the alphabet", okl,
             "the radix-58 loop of base58encode differs (radix constant, digit order or alphabet indexing)")
     for inp, want in ((b"", b""), (b"\x00", b"1"), (b"\x00\x00", b"11"), (b"\x00" * 5, b"11111")):
@@ -74,10 +87,22 @@ def run(ctx):
     amap = {c: i for i, c in enumerate(ALPHABET)}
     look = T("lookup", (tm.freeze(amap), tm.bv(0, tm.INT)), tm.ANY)
     term1 = T("sum", (tm.mapt(tm.mul([look, tm.binop("pow", 58, T("bvi", (0,), tm.INT))]), T("enumerate", (T("rev", (strip1,), tm.BYTES),), tm.LIST)),), tm.INT)
-    value_terms = [t for e in rets for t in tm.subterms(e.value) if isinstance(t, T) and t.op == "sum"]
-    okv = any(tm.veq(t, term1) for t in value_terms)
-    R.check("C07.1", "TERM-EQ", fd, "decode: value = sum(digit(c) * 58^i) over the reversed remainder", okv,
-            "the radix-58 accumulation of base58decode differs: %s" % (tm.show(value_terms[0])[:300] if value_terms else "no sum term"))
+    # or Horner's rule over the remainder read forwards: value = fold(58 * value + digit(c))
+    hacc = None
+    term2 = None
+    for lp in s.loops:
+        if lp.func == fd.qualname and lp.kind == "for" and tm.veq(lp.iter, strip1):
+            for var, val in lp.body.items():
+                a_ = T("acc", (var, lp.depth), tm.INT)
+                if lp.init.get(var) == 0 and tm.veq(val, tm.add([tm.mul([58, a_]), T("lookup", (tm.freeze(amap), tm.bv(lp.depth, tm.INT)), tm.ANY)])):
+                    term2 = [t for e in rets for t in tm.subterms(e.value) if isinstance(t, T) and t.op == "fold" and t.args[0] == var]
+                    term2 = term2[0] if term2 else None
+    value_terms = [t for e in rets for t in tm.subterms(e.value) if isinstance(t, T) and t.op in ("sum", "fold")]
+    okv = any(tm.veq(t, term1) for t in value_terms) or term2 is not None
+    if not any(tm.veq(t, term1) for t in value_terms) and term2 is not None:
+        term1 = term2
+    R.check("C07.1", "TERM-EQ", fd, "decode: value = sum(digit(c) * 58^i) over the reversed remainder (or Horner's rule over the remainder)", okv,
+            "the radix-58 accumulation of base58decode differs: %s" % (tm.show(value_terms[0])[:300] if value_terms else "no sum / fold term"))
     # alphabet enforcement: a raising lookup keyed by exactly the alphabet
     look_h = [h for h in s.hazards if h[0] == "KeyError" and isinstance(h[1], T) and h[1].op == "lookup" and rules.unfz(h[1].args[0]) == amap]
     R.check("C07.3", "DOM", fd, "every character passes a raising lookup keyed by the alphabet", bool(look_h),
